@@ -368,27 +368,29 @@ StepArgsT = ObjT("Namespace", rest_file=OptT(Str), info_file=OptT(Str), wildcard
                  too_long_paired_output=OptT(Str), max_n=OptT(Real), max_expected_errors=OptT(Real), max_average_error_rate=OptT(Real),
                  discard_casava=Bool, discard_trimmed=Bool, discard_untrimmed=Bool, untrimmed_output=OptT(Str),
                  untrimmed_paired_output=OptT(Str), output=OptT(Str), paired_output=OptT(Str), pair_adapters=Bool, interleaved=Bool,
-                 fasta=Bool, pair_filter=OptT(Str))
+                 fasta=Bool, pair_filter=OptT(Str), action=Str)
 
 
 @contract("cli.py", "make_pipeline_from_args", props=["C11", "C05", "C04", "C19"], name="make_pipeline_from_args:steps")
 def builder_steps(c):
     """The segment of make_pipeline_from_args that assembles the step list (from `def make_filter` to `modifiers = []`)."""
     c.replay_grid = ["C11", "C05", "C04", "C19"]
-    c.body_from = "def make_filter(predicate1, predicate2, path1, path2, pair_filter_mode=pair_filter_mode)"
+    c.body_from = "action = None if args.action == 'none' else args.action"
     c.body_until = "modifiers = []"
     c.types(args=StepArgsT, paired=Bool, outfiles=ObjT("OutputFiles"), input_file_format=ObjT("FileFormatLike", qualities=Bool),
-            pair_filter_mode=OptT(Str), adapters=_SeqT(ObjT("Adapter")), adapters2=_SeqT(ObjT("Adapter")))
+            adapters=_SeqT(ObjT("Adapter")), adapters2=_SeqT(ObjT("Adapter")))
     c.inline.update({"determine_demultiplex_mode"})
     c.spec(steps_spec)
-    c.requires(pair_filter_mode_set_iff_paired="is_none(pair_filter_mode) == (not paired)",
-               single_end_has_no_R2_options="implies(not paired, len(adapters2) == 0 and is_none(args.paired_output))")
+    c.requires(single_end_has_no_R2_options="implies(not paired, len(adapters2) == 0 and is_none(args.paired_output))")
     c.raises("CommandLineError", when=None)
     S = "steps"
     ONE_SIDED = "(paired and ((len(adapters) == 0) != (len(adapters2) == 0)))"
     UNTR = "(args.discard_untrimmed or truthy(args.untrimmed_output) or truthy(args.untrimmed_paired_output))"
     c.ensures(
         filters_in_the_documented_order_then_one_sink=f"steps_sorted({S}) and exactly_one_sink_last({S})",
+        pair_filter_mode_is_the_requested_one_and_any_by_default="implies(paired, not is_none(pair_filter_mode) and "
+        "implies(is_none(args.pair_filter), seq_eq(val(pair_filter_mode), 'any')) and "
+        "implies(not is_none(args.pair_filter), seq_eq(val(pair_filter_mode), val(args.pair_filter))))",
         both_is_forced_for_untrimmed_filters_with_adapters_on_one_side_only=f"implies({ONE_SIDED} and {UNTR}, untrimmed_pair_mode_is({S}, 'both'))",
         otherwise_the_requested_pair_filter_mode_applies=f"implies(paired and len(adapters) > 0 and len(adapters2) > 0, untrimmed_pair_mode_is({S}, pair_filter_mode))",
         every_other_pair_filter_uses_the_requested_mode=f"implies(paired, paired_filters_use_mode({S}, pair_filter_mode, 'TooShort', 'TooLong', 'TooManyN', "
@@ -406,4 +408,5 @@ def builder_steps(c):
     )
     c.mutant("steps.append(make_filter(predicate1, predicate2, path1, path2))", "steps.append(make_filter(predicate2, predicate1, path1, path2))")
     c.mutant("(not adapters2 or not adapters)", "(not adapters2)")
+    c.mutant("pair_filter_mode = 'any' if args.pair_filter is None else args.pair_filter", "pair_filter_mode = 'both' if args.pair_filter is None else args.pair_filter")
     c.mutant("pair_filter_mode='both' if override_pair_filter_mode else pair_filter_mode", "pair_filter_mode=pair_filter_mode", occurrence=1)
